@@ -53,6 +53,31 @@ def Honoured(descr, msg, result):
     return True
 
 
+def TargetDescribed(descr, msg):
+    """the request addresses something the description lists, with the action that fits its kind"""
+    action, spec = msg[0], Full(msg[0], msg[1])
+    if action in ('read', 'change'):
+        return bool(spec) and ':' in spec and IsParameter(descr, spec)
+    if action == 'do':
+        return bool(spec) and ':' in spec and Described(descr, spec) and not IsParameter(descr, spec)
+    if action == 'activate':
+        return Described(descr, spec) and (not spec or ':' not in spec or IsParameter(descr, spec))
+    return True
+
+
+def RefusalAsDescribed(descr, msg, exc):
+    """what is described exists for the client: a NoSuch... refusal only for something the description does not list, and a
+    ReadOnly refusal only for a parameter described as readonly (the flags predict whether a change is refused)"""
+    name = exc.__name__
+    if name in ('NoSuchModuleError', 'NoSuchParameterError', 'NoSuchCommandError') and TargetDescribed(descr, msg):
+        return False
+    if name == 'ReadOnlyError':
+        spec = Full(msg[0], msg[1])
+        return msg[0] == 'change' and IsParameter(descr, spec) and \
+            Accessibles(descr, spec.split(':')[0])[spec.split(':')[1]].get('readonly', False)
+    return True
+
+
 def ConstantAsDescribed(descr, msg, result):
     if msg[0] != 'read':
         return True
@@ -85,7 +110,8 @@ CONTRACTS = [
          ensures={'only_described': 'Honoured(description, msg, result)',
                   'constant': 'ConstantAsDescribed(description, msg, result)',
                   'not_subscribed_undescribed': 'all(Described(description, e) and (":" not in e or IsParameter(description, e)) for e in self._subscriptions)'},
-         raises={'not_subscribed_undescribed': 'all(Described(description, e) and (":" not in e or IsParameter(description, e)) for e in self._subscriptions)'}),
+         raises={'described_is_served': 'RefusalAsDescribed(description, msg, exc)',
+                 'not_subscribed_undescribed': 'all(Described(description, e) and (":" not in e or IsParameter(description, e)) for e in self._subscriptions)'}),
     dict(key='Dispatcher.handle_describe', vc=False, file='frappy/protocol/dispatcher.py', func='Dispatcher.handle_describe', serves=['C06'],
          self_type='Dispatcher', requires=[],
          ensures={'exact': 'DescriptionExact(self, result[2])'}, raises='never'),
